@@ -769,6 +769,15 @@ def _fam_tpt():
         _reg("tpt.%s/populations" % fn, call, flux_args_pop(""))
         _reg("tpt.%s/csr,populations" % fn, call, flux_args_pop("csr"))
 
+    # the matrix alone varies between the argument sets (fixed states, populations computed by the routine): the form
+    # in which the worker's same-object rule applies (call, overwrite the matrix in place, call again)
+    for fn in ("reactive_fluxes", "net_fluxes", "reactive_populations"):
+        f = getattr(tpt, fn)
+        _reg("tpt.%s/matrix_only" % fn, (lambda f: lambda T: f(T, [0], [4]))(f), lambda rs, k: (_rev_tprob(rs)[0],))
+    _reg("tpt.committors/matrix_only", lambda T: tpt.committors(T, [0, 1], [4]), lambda rs, k: (_tprob(rs),))
+    _reg("tpt.mfpts/matrix_only", lambda T: tpt.mfpts(T), lambda rs, k: (_tprob(rs),))
+    _reg("tpt.mfpts/matrix_only,sinks", lambda T: tpt.mfpts(T, sinks=[2]), lambda rs, k: (_tprob(rs),))
+
     def nf(rs, k, multi=False, n=5):
         T, pi = _rev_tprob(rs, n)
         s, t = ss(1 if multi else 0, n)
